@@ -47,7 +47,7 @@ m = {
          "kind_free_text": "thorough tier: mutation-adequacy and false-alarm controls of the rule engine on a scratch copy of the current tree (selftest/*.json, seeded/*/patch.diff, benign/*/r*.diff)"},
     ],
     "checks": checks,
-    "notes": "Technique family: static analysis only. Every check re-extracts MIR facts from /repo's working tree when any source file changed (content hashes), fails closed (exit 2) when an anchor is missing. Five genuine defects were found and repaired in /repo (fix: a8a23ed C03, d4f7213 C17, a25879d C17, 44c862e C16, ab159d7 C11; known_findings.json lists them under fixed, nothing is open). See DESIGN.md (section 11 for seeded changes and benign controls) and RULES.md.",
+    "notes": "Technique family: static analysis only. Every check re-extracts MIR facts from /repo's working tree when any source file changed (content hashes), fails closed (exit 2) when an anchor is missing. Seven genuine defects were found and repaired in /repo (fix: a8a23ed C03, d4f7213 C17, a25879d C17, 44c862e C16, ab159d7 C11, 58be4a8 C19, 8f9b090 C19; known_findings.json lists them under fixed) and one is recorded as an open known finding (C19 R19.7 pushdown-redecided-on-view: a complete repair contradicts existing governance tests). See DESIGN.md (section 11 for seeded changes and benign controls) and RULES.md.",
     "not_applicable": [{"property_id": k, "reason": v} for k, v in sorted(NA.items())],
 }
 json.dump(m, open(os.path.join(V, "MANIFEST.json"), "w"), indent=1)
